@@ -2433,6 +2433,10 @@ class Driver(object, metaclass=DriverMetaclass):
                                                     wrt=desvar_vals.keys(),
                                                     driver_scaling=driver_scaling,
                                                     return_format='array')
+            if not self.supports['linear_constraints']:
+                # _compute_totals cached the total jacobian object that was built for the linear
+                # constraints only, so it must not be reused for the nonlinear constraints.
+                self._total_jac = None
         else:
             lincongrad_cache = np.empty((0, x_init.size))
 
